@@ -215,6 +215,8 @@ def gen_resources(g, spec, H):
                 spec["assign"].append({"task": t["name"], "res": "K1"})
             else:
                 ws = g.subset(free, 2, 3)
+                if spec["cumulative"] and "K1" not in used and g.chance(g.p.get("p_cumulative_in_select", 0)):
+                    ws = ws[:2] + ["K1"]  # a selection may list a cumulative worker (test_cumulative_select_worker_1)
                 used.update(ws)
                 sname = f"S{len(spec['selects'])+1}"
                 spec["selects"].append(
